@@ -485,4 +485,8 @@ def normalise(texts):
         if mapping:
             parsed = [json.loads(x) for x in rewrite(texts, mapping)]
             log += [dict(l, kind='function') for l in flog]
+        # functions the reference tree does not have and that serve one function only are extracted helpers: spliced back (inline.py)
+        from . import inline
+        for l in inline.inline_new_helpers(parsed, ref):
+            log.append({'kind': 'inlined-helper', 'tree': l['helper'], 'reference': ', '.join(l['into']), 'sites': l['sites']})
     return parsed, log
